@@ -444,6 +444,25 @@ Verdict prop(Tape& t, Run& run) {
 		printf("CASE %s\n", detail("replay").c_str());
 		fflush(stdout);
 	}
+	// sometimes the positions were edited in memory (same vertex count) and the model is converted without a
+	// save in between: what the conversion reads must be the live positions, not a copy kept for writing.
+	// (Decided last, after every other tape byte of the model.)
+	if (t.chance(72)) {
+		for (auto s : nif.GetShapes()) {
+			std::vector<Vector3> v;
+			nif.GetVertsForShape(s, v);
+			if (v.empty())
+				continue;
+			for (size_t i = 0; i < v.size(); i++) {
+				v[i].x += 0.5f;
+				v[i].y -= 0.25f + 0.125f * static_cast<float>(i % 3);
+				v[i].z += 1.0f;
+			}
+			nif.SetVertsForShape(s, v);
+		}
+		desc += " +positions-edited-in-memory";
+		run.cls("positions-edited-before-conversion");
+	}
 	std::vector<ShapeFacts> f0 = factsOf(nif);
 	std::vector<std::string> n0 = nodeFacts(nif);
 	bool skinned = false;
